@@ -225,6 +225,7 @@ fn tx_flush_all_flags() {
     } else {
         flush_or_shutdown::<4>(2, false);
     }
+    kani::cover!(true, "end of harness reachable (assumptions satisfiable, no unconditional failure)");
 }
 }
 
@@ -240,6 +241,7 @@ fn tx_shutdown_all_flags() {
     } else {
         flush_or_shutdown::<4>(2, true);
     }
+    kani::cover!(true, "end of harness reachable (assumptions satisfiable, no unconditional failure)");
 }
 }
 
@@ -262,6 +264,7 @@ fn tx_shutdown_idle_wakes_dispatcher() {
     assert!(wakes(W_DISP) >= 1, "C02: shutdown request wakes the dispatcher");
     std::mem::forget(wh);
     std::mem::forget(tx);
+    kani::cover!(true, "end of harness reachable (assumptions satisfiable, no unconditional failure)");
 }
 }
 
@@ -283,6 +286,7 @@ fn tx_drop_and_close_wake() {
     assert!(wakes(W_WRITER) == 1, "C02: closing the connection wakes the blocked writer");
     assert!(tx.locked.read().vsock_closed && tx.locked.read().writer_waker.is_none(), "C03: writer sees the connection as closed");
     std::mem::forget(tx);
+    kani::cover!(true, "end of harness reachable (assumptions satisfiable, no unconditional failure)");
 }
 }
 
@@ -373,6 +377,7 @@ crate::verif_tier_b! {
 #[kani::unwind(10)]
 fn tx_grow_doubles() {
     grow_step(16, false);
+    kani::cover!(true, "end of harness reachable (assumptions satisfiable, no unconditional failure)");
 }
 }
 
@@ -385,6 +390,7 @@ crate::verif_tier_b! {
 #[kani::unwind(10)]
 fn tx_grow_clamped_to_max() {
     grow_step(6, false);
+    kani::cover!(true, "end of harness reachable (assumptions satisfiable, no unconditional failure)");
 }
 }
 
@@ -401,6 +407,7 @@ fn tx_grow_at_maximum_is_noop() {
     } else {
         grow_step(4, false);
     }
+    kani::cover!(true, "end of harness reachable (assumptions satisfiable, no unconditional failure)");
 }
 }
 
